@@ -99,6 +99,18 @@ CHECKS.update({
    text="From every explicit-state search state (k<=1 full alphabet on three packages in quick; k<=2 and all 8 in thorough) UnmarshalSetRequest / UnmarshalNotifications are driven on a fresh real tree with every single-operation request over the full operation alphabet (delete / replace / update at root, containers, presence containers, list entries, ordered-list entries, whole lists, partial keys, leaves, leaf-lists; payloads scalar TypedValue, JSON_IETF scalar, JSON_IETF sub-trees with <=2 atoms), every prefix split, all 2-operation requests over a focused alphabet (same path twice, child then ancestor, ancestor then child), histories of two requests, and atomic notifications at ordered-list and container prefixes. After every request the observed Model is compared with reference gNMI Set semantics on the path-to-value Model (prefix join; deletes; each replace = delete subtree then write payload; each update = merge).",
    technique="explicit-state transition exploration (state x SetRequest) on the real implementation against reference gNMI Set semantics on the model", note=TREE_NOTE),
 })
+
+CHECKS.update({
+ "C07": dict(engine="treemc", cat="model_checking", sec="5/C07",
+   text="All explicit-state search states (k<=2 quick on six packages incl. a validation corpus with min/max-elements, restricted unions, multi-pattern strings and nested choices; k<=3 thorough on all) are schema-valid by construction and must validate; and ALL single-fault mutations of them built by reflection (each leaf replaced by each out-of-space value of its type: range edge +-1, over-long / pattern-violating string, over-long binary, undefined enum/identity integer, union value fitting no member; map key != key leaf incl. nil key leaves and each key of multi-key lists; duplicate value in each config leaf-list; lists / leaf-lists beyond max-elements or below min-elements; two cases of a choice) must be rejected, legal duplicates in config-false leaf-lists accepted. Oracle: Validate()==nil exactly when an independent reference validator over the Model and the goyang schema accepts (math/big ranges, reference regexp matcher, membership, key consistency, uniqueness, element counts, one case per choice).",
+   technique="explicit-state BFS plus exhaustive single-fault mutation of every state, differential against an independent reference validator", note=TREE_NOTE),
+ "C19": dict(engine="treemc", cat="model_checking", sec="5/C19",
+   text="Every explicit-state search state (k<=2 quick, 3 thorough; all 8 configurations) x 5 RFC7951JSONConfig settings (nil, AppendModuleName, PrependModuleNameIdentityref, two RewriteModuleNames maps) x {Marshal7951, ConstructIETFJSON, EmitJSON}: the emitted document must equal, structurally and lexically, the document produced by an independent renderer (harness/core/refjson.go) from the reference Model and the harness's own goyang compile of the YANG sources (module names from Entry.Namespace, identity modules from the identity statements - nothing from ygot's struct tags): numbers for <=32-bit integers, RFC 7950 lexical strings for 64-bit integers and decimal64, base64, [null], names, module prefixes exactly where the module changes. Plus a per-type value sweep (decimal64 +-d*10^e over e in -18..18, int64/uint64 boundaries).",
+   technique="explicit-state BFS over tree-building sequences; differential against an independent RFC 7951 renderer in every state and configuration", note=TREE_NOTE),
+ "C31": dict(engine="treemc", cat="model_checking", sec="5/C31",
+   text="Pairs (existing tree t1, JSON document rendered by the independent refjson from the model of t2, with bare and module-prefixed names, optionally plus one unknown member at each object position) over all ordered pairs of k<=1 states on three packages and k<=2 x k<=2 over ordered-list atoms (thorough: more), with and without IgnoreExtraFields: the document is unmarshalled into a fresh copy of t1 and the observed Model compared with the reference merge (unmentioned values unchanged, mentioned leaves overwritten, mentioned leaf-lists replaced wholesale, list entries merged by key, no duplicate keys); an unknown member must cause an error without the option and be skipped with it while everything else is applied identically.",
+   technique="explicit-state enumeration of (tree, document) pairs on the real Unmarshal against a reference merge on the model", note=TREE_NOTE),
+})
 ALL = [json.loads(l)["id"] for l in open(os.path.join(V, "properties.jsonl"))]
 NA = {
 }
